@@ -384,6 +384,10 @@ func checkRefAgreement(s *RunSpec, a, b *world, out []Violation) []Violation {
 
 // resultDigest folds every rendered result of a world into a hash (event log for the determinism self-test).
 func resultDigest(w *world, res [][]opResult) uint64 {
+	// addresses reachable from an operation's own object are replaced by their position: the digest is compared
+	// between worker processes (selftest, O8)
+	renderNormalised = true
+	defer func() { renderNormalised = false }()
 	h := uint64(0xcbf29ce484222325)
 	for t := range res {
 		for i := range res[t] {
